@@ -13,7 +13,7 @@ ID = 'C01'
 BOUNDS = {'quick': 5, 'thorough': 6}
 OPS = tuple(o for o in sh.LOGICAL if o != 'XOR')
 # name classes a quoted UVL identifier can carry (no '"', '.', CR/LF)
-UVL_NAME_CLASSES = ('digit', 'underscore', 'space', 'punct', 'uvlkw', 'opword', 'nonascii', 'xml', 'ws-edge', 'rare', 'unicode-edge')
+UVL_NAME_CLASSES = ('digit', 'underscore', 'space', 'punct', 'uvlkw', 'opword', 'nonascii', 'xml', 'ws-edge', 'rare', 'unicode-edge', 'numberlike', 'dashes')
 
 
 class UVLFormat(rt.Format):
@@ -21,6 +21,10 @@ class UVLFormat(rt.Format):
     ext = 'uvl'
     fields = ('abstract', 'ftype', 'fcard', 'attrs')
     star_ok = True
+
+    writer_cls = UVLWriter
+    reuse_stride = 5          # (the generated UVL parser is slow)
+    reader_cls = UVLReader
 
     def write(self, fm, path):
         return UVLWriter(path, fm).transform()
@@ -51,7 +55,7 @@ def _values():
 
 def _uvl_value_ok(v):
     if isinstance(v, str):
-        return v != '' and "'" not in v and '.' not in v and '\n' not in v
+        return v != '' and "'" not in v and '.' not in v and '\n' not in v and '\r' not in v
     if isinstance(v, float):
         return 'e' not in repr(v) and 'inf' not in repr(v) and 'nan' not in repr(v)
     if isinstance(v, list):
@@ -69,6 +73,8 @@ def _level1():
     for i, v in enumerate(_values()):
         devs.append(('attr', ('att%d' % i, v)))
     devs += [('attr', ('a b', 1)), ('attr', ('ünï', 'x')), ('attr', ('or', True)), ('attr', ('abstractx', 2))]
+    # (an attribute spelled exactly `abstract` is UVL's abstract marker: not expressible as an attribute)
+    devs += [('attr', (n, v)) for n, v in rt.ATTR_NAME_DEVS if n != 'abstract' and _uvl_value_ok(v)]
     return devs
 
 
